@@ -54,6 +54,15 @@ EndRequest(c, m, e) ==
        THEN Fail(m, "L3/no-reply-although-the-peer-accepted-again-and-a-retry-was-configured")
   ELSE m
 
+\* the NEXT request, issued after the peer accepts connections again: with a retry configured it recovers
+EndNextRequest(c, m, e) ==
+  IF e.res = "Hang" THEN Fail(m, "L1/request-blocks-forever")
+  ELSE IF e.res = "ok" THEN
+       IF e.d = c.expect THEN m ELSE Fail(m, "L2/request-returned-a-reply-the-peer-did-not-send")
+  ELSE IF c.retries >= 1 /\ c.window # -1 /\ m.restartAt # -1 /\ m.restartAt <= m.t0
+       THEN Fail(m, "L3/next-request-does-not-recover-although-the-peer-accepts-again")
+  ELSE m
+
 Step(c, m, e) ==
   CASE e.e = "Msg" -> [m EXCEPT !.msgs = Append(@, e.d)]
     [] e.e = "Cut" -> IF m.cutAt = -1 THEN [m EXCEPT !.cutAt = e.t, !.cutKind = e.kind] ELSE m
@@ -63,6 +72,7 @@ Step(c, m, e) ==
     [] e.e = "End" ->
          IF e.op = "close" THEN (IF e.res = "ok" THEN m ELSE Fail(m, "L4/close-raised"))
          ELSE IF e.op = "request" THEN EndRequest(c, m, e)
+         ELSE IF e.op = "request2" THEN EndNextRequest(c, m, e)
          ELSE EndTransportOp(c, m, e)
     [] e.e = "Final" -> m
     [] OTHER -> Fail(m, "trace/unknown-event")
